@@ -144,8 +144,8 @@ Proof.
     rewrite (IHex2 _ _ _ E2), (IHex1 _ _ _ E1); [reflexivity | |]; intros Hin; apply Hy; apply in_or_app; tauto.
   - (* EIn *) destruct (eval ex1 e) as [[e2 va]|] eqn:E1; [|discriminate].
     destruct (eval ex2 e2) as [[e3 vb]|] eqn:E2; [|discriminate].
-    destruct vb; try discriminate. destruct va; inversion Hev; subst.
-    rewrite (IHex2 _ _ _ E2), (IHex1 _ _ _ E1); [reflexivity | |]; intros Hin; apply Hy; apply in_or_app; tauto.
+    destruct vb; try discriminate. destruct (as_key va) as [[z|]|]; inversion Hev; subst;
+      (rewrite (IHex2 _ _ _ E2), (IHex1 _ _ _ E1); [reflexivity | |]; intros Hin; apply Hy; apply in_or_app; tauto).
   - (* ELen *) destruct (eval ex e) as [[e2 va]|] eqn:E1; [|discriminate].
     destruct va; inversion Hev; subst; apply (IHex _ _ _ E1); exact Hy.
   - (* EIntOf *) destruct (eval ex e) as [[e2 va]|] eqn:E1; [|discriminate].
@@ -155,10 +155,12 @@ Proof.
     destruct (max_vals va vb); inversion Hev; subst.
     rewrite (IHex2 _ _ _ E2), (IHex1 _ _ _ E1); [reflexivity | |]; intros Hin; apply Hy; apply in_or_app; tauto.
   - (* EPop *) destruct (eval ex e) as [[e2 va]|] eqn:E1; [|discriminate].
-    destruct va; try discriminate. destruct (e2 x) as [vx|] eqn:Ex; [|discriminate].
-    destruct vx; try discriminate. destruct (dget z d); inversion Hev; subst.
-    rewrite upd_other by (intros E; apply Hy; left; exact E).
-    apply (IHex _ _ _ E1). intros Hin. apply Hy. right. exact Hin.
+    destruct (as_key va) as [[z|]|]; try discriminate.
+    + destruct (e2 x) as [vx|] eqn:Ex; [|discriminate].
+      destruct vx; try discriminate. destruct (dget z d); inversion Hev; subst.
+      rewrite upd_other by (intros E; apply Hy; left; exact E).
+      apply (IHex _ _ _ E1). intros Hin. apply Hy. right. exact Hin.
+    + destruct (e2 x) as [vx|]; [|discriminate]. destruct vx; discriminate.
   - (* EList *) revert e e1 v0 Hev Hy. induction H as [|a l Ha Hl IHl]; intros e e1 v0 H0 Hy.
     + inversion H0; subst; reflexivity.
     + destruct (eval a e) as [[e2 va]|] eqn:E1; [|discriminate].
